@@ -41,6 +41,10 @@ def main():
       'engines': [
           {'name': 'progs+spec+rmode', 'path': 'vf/progs.py vf/spec.py vf/rmode.py vf/diff.py', 'serves_properties': ['C01', 'C02', 'C03', 'C05', 'C08', 'C09'],
            'kind_free_text': 'program AST + Hypothesis strategies + exhaustive small-tree enumerator; independent reference interpreter of docs/event_sequence.md; real-thread execution harness'},
+          {'name': 'vsched', 'path': 'vf/vsched.py vf/vmode.py vf/vsched_selftest.py', 'serves_properties': ['C03', 'C04', 'C08', 'C09', 'C12', 'C13', 'C14', 'C18'],
+           'kind_free_text': 'deterministic cooperative scheduler with virtual time over real threads: proxy threading/time/queue/ctypes in the module namespaces, line-level yield points via sys.monitoring, schedules (preemptions, stalls, wake-ups, SIGINT injections) as generated / enumerated data, deadlock and livelock reports; self-test at the start of every scheduled check'},
+          {'name': 'fakes_usb', 'path': 'vf/fakes_usb.py', 'serves_properties': ['C13', 'C14', 'C15', 'C16'],
+           'kind_free_text': 'import stubs for libusb1/usb1/M2Crypto, independent ADB header codec, scripted adbd and bootloader fakes'},
           {'name': 'hyp', 'path': 'vf/hyp.py', 'serves_properties': ALL,
            'kind_free_text': 'seeded database-less Hypothesis driver with root-cause bucketing, known-finding exclusion and budgeted shrinking'},
       ],
